@@ -52,6 +52,17 @@ var c04Cases = []c04Case{
 	{"A25", nil, func(p *factSnap, f *Fact, w *tbWorld) bool { return sameJSONLeaf(w.json["s"], p.f.R+"x") }},
 	{"A26", nil, func(p *factSnap, f *Fact, w *tbWorld) bool { return sameJSONLeaf(w.json["flag"], verif.Not(p.f.C)) }},
 	{"A27", nil, func(p *factSnap, f *Fact, w *tbWorld) bool { return sameJSONLeaf(w.json["a"], w.preJ.bc.(float64)*2) }},
+	{"A28", nil, func(p *factSnap, f *Fact, w *tbWorld) bool { return f.S == p.f.S+"x" }},
+	{"A29", func(p *factSnap) bool { return verif.And(p.f.In >= 0, p.f.In <= 2) }, func(p *factSnap, f *Fact, w *tbWorld) bool {
+		want := p.arr[1] + 1
+		if p.f.In == 0 {
+			want = 10
+		} else if p.f.In == 2 {
+			want = p.arr[2] + 1
+		}
+		return f.K == want
+	}},
+	{"A30", nil, func(p *factSnap, f *Fact, w *tbWorld) bool { return verif.And(f.K == 10, f.RI == p.ma+1) }},
 }
 
 func VerifC04Assign() {
